@@ -353,6 +353,13 @@ func RandUnknown(r *core.Rand, md protoreflect.MessageDescriptor, res *protoregi
 				break
 			}
 		}
+		if isMessageSet(md) {
+			// unknown fields of a MessageSet are unresolved items: number = type id,
+			// length-delimited payload (anything else is refused by Marshal)
+			b = protowire.AppendTag(b, n, protowire.BytesType)
+			b = protowire.AppendBytes(b, r.Bytes(r.Intn(6)))
+			continue
+		}
 		b = AppendRandField(r, b, n, 2)
 	}
 	return b
